@@ -160,7 +160,7 @@ def run_form(name, argnames, wrap=False):
     sweep.F.seed = 1
     node = form_node(name, wrap)
     core.set_fuel(30000, 30000)
-    core.arm(10.0)
+    core.arm(4.0)
     try:
         o = core.outcome_raw(lambda: node.evaluate(env))
         if o[0] == "value" and not (
@@ -182,8 +182,29 @@ def run_form(name, argnames, wrap=False):
     return o
 
 
-def judge(o):
+def safe_repr(v):
+    """rendering on behalf of the harness: may fail or not terminate on a
+    changed tree, so it runs under the wall clock and never raises"""
+    core.arm(2.0)
+    try:
+        return repr(v)
+    except BaseException as e:
+        return "<unrenderable %s %d>" % (type(e).__name__, id(v))
+    finally:
+        core.disarm()
+
+
+CYCLIC_OPERANDS = {"<*a = 1, _proto_ = itself*>"}
+
+
+def judge(o, argnames=()):
     """None if fine, else (kind, detail dict)"""
+    if o[0] == "host" and o[1] == "RecursionError" and \
+            CYCLIC_OPERANDS & set(argnames):
+        # equality, hashing and rendering of a value that contains itself
+        # are infinitely deep: outside the claim (lookups are not - a hang
+        # or any other host exception on such an operand is still reported)
+        return None
     if o[0] == "value":
         if not isinstance(o[1], core.ckl.values.Value):
             return {"kind": "non-value-result", "exc": type(o[1]).__name__}
@@ -201,6 +222,7 @@ def judge(o):
 
 def explore_calls(chunk):
     agg = core.Agg()
+    hangs = {}
     s = sess()
     fmap = dict(s.funcs)
     wrapped_seen = set()
@@ -213,6 +235,9 @@ def explore_calls(chunk):
                     continue
             elif len(t) < 2 or t[0] != first:
                 continue
+            if hangs.get(fname, 0) >= 2:
+                continue      # already reported; every further hang costs
+                              # the full wall-clock allowance
             variants = [False]
             if len(t) >= 2 and len(set(t)) < len(t):
                 variants.append(True)   # the same object passed twice
@@ -220,8 +245,10 @@ def explore_calls(chunk):
                 o, args = s.call(fn, t, alias=alias)
                 agg.count("steps")
                 agg.cls((fname, o[0]))
-                bad = judge(o)
+                bad = judge(o, t)
                 if bad:
+                    if bad["kind"] == "hang":
+                        hangs[fname] = hangs.get(fname, 0) + 1
                     break
             if bad:
                 sig = {"callee": fname, **bad}
@@ -233,7 +260,7 @@ def explore_calls(chunk):
                               core.show_raw(o), size=len(t) * 100 + sum(
                                   len(x) for x in t))
             elif o[0] == "rt":
-                key = (fname, repr(o[1]))
+                key = (fname, safe_repr(o[1]))
                 if key not in wrapped_seen:
                     wrapped_seen.add(key)
                     agg.count("interceptions")
@@ -269,13 +296,13 @@ def wrap_call(s, fn, t):
         env.put(nm, v)
     s.session._bind_streams()
     core.set_fuel(30000, 30000)
-    core.arm(10.0)
+    core.arm(4.0)
     try:
         o = core.outcome_raw(lambda: node.evaluate(env))
     finally:
         core.disarm()
         core.set_fuel(10 ** 12, 10 ** 12)
-    return o[0] == "value" and repr(o[1]) == "'CAUGHT'"
+    return o[0] == "value" and safe_repr(o[1]) == "'CAUGHT'"
 
 
 def explore_forms(chunk):
@@ -294,11 +321,16 @@ def explore_forms(chunk):
             if first not in pool3:
                 continue
             tuples = [(first, b, c) for b in pool3 for c in pool3]
+        nh = 0
         for t in tuples:
+            if nh >= 2:
+                break
             o = run_form(fname, t)
             agg.count("steps")
             agg.cls((fname, o[0]))
-            bad = judge(o)
+            bad = judge(o, t)
+            if bad and bad["kind"] == "hang":
+                nh += 1
             if bad:
                 agg.violation({"callee": "form:" + fname, **bad},
                               {"kind": "form", "form": fname, "src": src,
@@ -307,12 +339,12 @@ def explore_forms(chunk):
                               core.show_raw(o), size=len(t) * 100 + sum(
                                   len(x) for x in t))
             elif o[0] == "rt":
-                key = (fname, repr(o[1]))
+                key = (fname, safe_repr(o[1]))
                 if key not in wrapped_seen:
                     wrapped_seen.add(key)
                     agg.count("interceptions")
                     w = run_form(fname, t, wrap=True)
-                    if not (w[0] == "value" and repr(w[1]) == "'CAUGHT'"):
+                    if not (w[0] == "value" and safe_repr(w[1]) == "'CAUGHT'"):
                         agg.violation(
                             {"callee": "form:" + fname,
                              "kind": "not-interceptable"},
@@ -341,11 +373,11 @@ def replay(case, verbose=False):
         o = run_form(case["form"], tuple(case["args"]),
                      wrap=bool(case.get("wrap")))
         if case.get("wrap"):
-            return not (o[0] == "value" and repr(o[1]) == "'CAUGHT'")
+            return not (o[0] == "value" and safe_repr(o[1]) == "'CAUGHT'")
     if verbose:
         print("case:", case)
         print("observed:", core.show_raw(o))
-    return judge(o) is not None
+    return judge(o, tuple(case["args"])) is not None
 
 
 def main(tier, seed):
